@@ -601,18 +601,24 @@ def clauseParts (c : Term) : Term × List Term :=
   | .app ":-" (.cons h (.cons b .nil)) => (h, conj b.size b)
   | t => (t, [])
 
-def renameClause (c : Term) (next : Nat) : Term := substT (fun v => .var (v + next)) c
+/-- a clause as (head, body goals) -/
+abbrev Clause := Term × List Term
+
+/-- rename the variables of a clause apart: shift them above `next` -/
+def shift (next : Nat) : Nat → Term := fun v => .var (v + next)
 
 /-- depth-first, left-to-right, clauses in order; `fuel` bounds the length of a derivation.
-    Returns the call's arguments under each answer substitution. -/
-def sld (clauses : List Term) : Nat → List Term → List Term → Nat → Answers
-  | 0, _, _, _ => []
-  | _ + 1, [], args, _ => [args]
-  | f + 1, g :: gs, args, next =>
+    A clause is renamed apart by shifting its variables above every variable of the current goals
+    and of the call.  Returns the call's arguments under each answer substitution. -/
+def sld (clauses : List Clause) : Nat → List Term → List Term → Answers
+  | 0, _, _ => []
+  | _ + 1, [], args => [args]
+  | f + 1, g :: gs, args =>
     clauses.flatMap fun c =>
-      let (h, body) := clauseParts (renameClause c next)
-      match unifyM g h with
-      | some δ => sld clauses f ((body ++ gs).map (substT δ)) (args.map (substT δ)) (next + boundT c)
+      let next := boundL (g :: gs ++ args)
+      match unifyM g (substT (shift next) c.1) with
+      | some δ =>
+        sld clauses f ((c.2.map (substT (shift next)) ++ gs).map (substT δ)) (args.map (substT δ))
       | none => []
 
 def headIs (name : String) (arity : Nat) (c : Term) : Bool :=
@@ -625,10 +631,10 @@ def bootClauses (name : String) (arity : Nat) : List Term :=
   Generated.bootstrapTerms.filter (headIs name arity)
 
 def member (fuel : Nat) (x l : Term) : Result :=
-  .ok (sld (bootClauses "member" 2) fuel [Term.a2 "member" x l] [x, l] (boundL [x, l]))
+  .ok (sld ((bootClauses "member" 2).map clauseParts) fuel [Term.a2 "member" x l] [x, l])
 
 def select (fuel : Nat) (e l r : Term) : Result :=
-  .ok (sld (bootClauses "select" 3) fuel [Term.a3 "select" e l r] [e, l, r] (boundL [e, l, r]))
+  .ok (sld ((bootClauses "select" 3).map clauseParts) fuel [Term.a3 "select" e l r] [e, l, r])
 
 /-! ## append/3 -/
 
@@ -646,7 +652,7 @@ def appendFast (xs : Term) : Bool :=
 
 def append (fuel : Nat) (xs ys zs : Term) : Result :=
   if appendFast xs = true then .ok (unifyAns [xs, ys, zs] zs (Term.list xs.spine.1 ys))
-  else .ok (sld appendClauses fuel [Term.a3 "append" xs ys zs] [xs, ys, zs] (boundL [xs, ys, zs]))
+  else .ok (sld (appendClauses.map clauseParts) fuel [Term.a3 "append" xs ys zs] [xs, ys, zs])
 
 /-! ## dispatch used by the driver -/
 
